@@ -192,16 +192,17 @@ class WaitUntilDecoratorManager(DecoratorManager):
             _LOGGER.debug("task.wait_until future already completed: %s", self._future)
             # ignore another calls
             return
-        await self.stop()
+        # resolve first: stopping can dispatch again (a "shutdown" time trigger does)
         self._future.set_result(data)
+        await self.stop()
 
     async def handle_exception(self, exc: Exception) -> None:
         """Propagate an evaluation exception to the waiting caller."""
         if self._future.done():
             _LOGGER.debug("task.wait_until future already completed: %s", self._future)
             return
-        await self.stop()
         self._future.set_exception(exc)
+        await self.stop()
 
     async def wait_until(self) -> dict[str, Any]:
         """Wait for dispatch and normalize the return payload."""
